@@ -363,3 +363,17 @@ SUBCHECKS = {
     "values": {"run": _run(value_cases(), exec_values, "n"), "execute": exec_values},
     "ops": {"run": _run(op_cases(), exec_ops, "n"), "execute": exec_ops},
 }
+
+
+def _order():
+    from checks import prelude
+
+    return prelude.make_order(value_cases(), exec_values, lambda c: [c["bits"], len(c["shape"]), c["shape"][0] % (8 // c["bits"]), c["layout"][0]])
+
+
+def _run_order(ctx):
+    strategy, execute = _order()
+    drive(ctx, strategy, execute, max(1, int(ctx.params["n"] * ctx.params.get("scale", 1))))
+
+
+SUBCHECKS["order"] = {"run": _run_order, "execute": lambda case: _order()[1](case)}
